@@ -248,7 +248,7 @@ pub fn run(ctx: &Ctx) {
          Exhaustive indices are distinct by construction and counted; generated cases are counted by digest.",
     );
     ctx.rec.assume("reference = harness/src/spec/hilbert.rs, written from the specification's algorithm; shares no code with hilbert_2d");
-    let zmax: u32 = ctx.tier.pick(12, 15);
+    let zmax: u32 = ctx.tier.pick(12, 16);
     let n = hilbert::base(zmax + 1) as u64;
     run_indexed(ctx, &format!("exhaustive-ids-z0..{zmax}"), n, true, 1 << 14, |i| check_id(i, zmax), |i| {
         json!({"id": i, "zxy": hilbert::id_to_zxy(i)})
